@@ -38,6 +38,28 @@ def export_behaviours(ctx: core.Ctx, kind: str, depth: int) -> list[list[dict]]:
     return behs
 
 
+def export_sampled(ctx: core.Ctx, kind: str, depth: int, num: int) -> list[list[dict]]:
+    """Random behaviours of the given depth from TLC's simulation mode (for depths whose full enumeration is too large)."""
+    sdir = env.scratch("c10sim")
+    try:
+        cfg = tlc.write_cfg(sdir / "sim.cfg", spec="Spec",
+                            constants={"Kind": f'"{kind}"', "MaxDepth": depth, "Deviation": '"none"', "Export": "TRUE"},
+                            invariants=["TypeOK", "C10_Fresh", "C10_Idempotent", "CacheIsCurrent", "ExportLeaf"])
+        r = ctx.tlc("Reservoir", cfg, workers=8, scratch=sdir, timeout=1500, simulate=f"num={num}", depth=depth + 1,
+                    seed=ctx.seed + 11)
+        if r.violated:
+            raise tlc.MachineryError(f"simulation of Reservoir violates {r.violated}")
+    finally:
+        env.cleanup(sdir)
+    seen, out = set(), []
+    for b in r.by_tag("BEH"):
+        k = json.dumps([s["call"] for s in b["steps"]], sort_keys=True)
+        if k not in seen:
+            seen.add(k)
+            out.append(b["steps"])
+    return out
+
+
 def _walk(args):
     """Replay all histories that start with one first call (prefix-tree walk). Returns (n_steps, failures)."""
     kind, variant, behs, refs = args
@@ -243,7 +265,7 @@ def replay(ctx: core.Ctx, obj: dict) -> None:
 
 
 def run(ctx: core.Ctx) -> None:
-    depth_s, depth_i = (4, 5) if ctx.quick else (5, 6)
+    depth_s, depth_i = (4, 5) if ctx.quick else (4, 6)   # 15^4 = 50 625 and 6^5 / 6^6 histories, exhaustively
     ctx.rule = ("histories = all words over the call alphabet of Reservoir.tla (12 calls single-phase, 6 ideal) "
                 f"up to depth {depth_s}/{depth_i}, each replayed on real objects for several concrete "
                 "instantiations (grids, nx, tables, schedules); distinct = (kind, instantiation, history); "
@@ -267,6 +289,11 @@ def run(ctx: core.Ctx) -> None:
     for kind, depth in (("single", depth_s), ("ideal", depth_i)):
         behs = export_behaviours(ctx, kind, depth)
         replay_histories(ctx, kind, behs, variants, OWN_CLAUSES)
+    if not ctx.quick:
+        # deeper single-phase histories: random behaviours of depth 6 from TLC's simulation mode
+        behs = export_sampled(ctx, "single", 6, 1000)
+        ctx.extra["sampled_depth6_histories"] = len(behs)
+        replay_histories(ctx, "single", behs, [0, 3], OWN_CLAUSES)
     if ctx.quick:
         trace_validation(ctx, n_inst=4, nobj=6, length=30, clauses=OWN_CLAUSES)
     else:
